@@ -60,8 +60,11 @@ func (d *uriDecoder) readLine(data string, commonHeader http.Header) (DecodedAmm
 	}
 	header := commonHeader.Clone()
 	for k, vv := range d.decodedConfigHeaders {
+		if _, ok := header[k]; ok {
+			continue // headers in ammo file have priority
+		}
 		for _, v := range vv {
-			header.Set(k, v)
+			header.Add(k, v)
 		}
 	}
 	a := d.pool.Get().(*ammo.Ammo)
